@@ -91,6 +91,9 @@ type specInfo struct {
 }
 
 func genSpec(r *Rand, wallets []string) specInfo {
+	if r.Chance(degenerateShare, 100) {
+		return genDegenerateSpec(r, wallets) // gen_degenerate.go
+	}
 	w := pick(r, wallets)
 	info := specInfo{wallet: w}
 	wp := w
@@ -216,6 +219,15 @@ func gen(r *Rand) Input {
 	for i := 0; i < ns; i++ {
 		infos = append(infos, genSpec(r, wallets))
 	}
+	// a case dense in degenerate parts: 2-3 further specifiers, each about a wallet of its own, so
+	// that no other specifier covers (or uncovers) what they admit (gen_degenerate.go)
+	dense := false
+	if r.Chance(degenerateDense, 100) {
+		dense = true
+		for i, n := 0, r.Range(2, 3); i < n; i++ {
+			infos = append(infos, genDegenerateSpec(r, []string{denseWallets[i]}))
+		}
+	}
 	// a neighbouring wallet (name extending the configured one) that is opened but whose
 	// accounts are not asked for
 	if r.Chance(35, 100) {
@@ -289,6 +301,9 @@ func gen(r *Rand) Input {
 	}
 	order := r.Perm(len(cands))
 	na := r.Range(2, 12)
+	if dense {
+		na = r.Range(8, 16)
+	}
 	if na > len(cands) {
 		na = len(cands)
 	}
